@@ -38,7 +38,7 @@ func main() {
 			outs[o1]++
 		}
 	}
-	want := "sum 6\ncount 40\nticks>=3 true\nfirst timer\nafter true true\nslept true\n"
+	want := "sum 6\ncount 40\nticks>=3 true\nfirst timer\nafter true true\nmailbox 15\nctx context deadline exceeded afterfunc\nctx2 context canceled context canceled\nsyncmap [0 1 2 3 4]\nslept true\n"
 	if len(outs) != 1 || outs[want] != 800 {
 		fmt.Printf("WRONG RESULTS under some schedule: %q\n", outs)
 		os.Exit(1)
